@@ -142,8 +142,15 @@ Section WithPathMatch.
                            && negb (existsb (hides true e) (l_nomsg st)))).
   Proof.
     cbn [logger_step]. 
-    destruct (list_is_suppressed pm (l_nomsg st) e use_global) as [[n1 sup]|] eqn:H1; [|discriminate].
-    apply list_is_suppressed_spec in H1. destruct H1 as [-> F1]. apply flags_after_static in F1.
+    destruct (list_is_suppressed pm (l_nomsg st) e use_global) as [[n0 sup]|] eqn:H1; [|discriminate].
+    apply list_is_suppressed_spec in H1. destruct H1 as [-> F0]. apply flags_after_static in F0.
+    destruct (if existsb (hides use_global e) (l_nomsg st) && negb use_global
+              then list_is_suppressed pm n0 e true else Some (n0, false)) as [[n1 b0]|] eqn:H0; [|discriminate].
+    assert (F1 : map static n1 = map static (l_nomsg st)).
+    { destruct (existsb (hides use_global e) (l_nomsg st) && negb use_global).
+      - apply list_is_suppressed_spec in H0. destruct H0 as [_ F]. apply flags_after_static in F. congruence.
+      - injection H0 as <- _. exact F0. }
+    clear H0 F0.
     destruct (is_nil text) eqn:Hn; cbn [negb andb].
     { intros H; injection H as <- <-. cbn. rewrite orb_false_r. auto. }
     destruct (mem_str text (l_seen st)) eqn:Hs; cbn [negb andb].
